@@ -2,8 +2,8 @@ SPECIFICATION Spec
 CONSTANTS
  MaxDepth = 2
  MaxItems = 2
- MaxLen = 10
+ MaxLen = 9
  MaxVar = 1
  QKeySlashIsComment = FALSE
-INVARIANTS TypeOK JsonSubset SMAgree SMPrefix SMNoUnderflow SMChunks
+INVARIANTS TypeOK JsonSubset SMAll
 CHECK_DEADLOCK FALSE
